@@ -135,6 +135,12 @@ func (w *World) quotaOnAssign(e *cENI, n, alreadyThere int, v6 bool) {
 // ---- settle phase: C03 liveness, C08 convergence and conservation
 
 func (w *World) reconcileOnce() {
+	w.passStartUID = map[string]string{}
+	for _, p := range w.pods {
+		if p.exists {
+			w.passStartUID[p.spec.Name] = p.uid
+		}
+	}
 	_, _ = w.ctl.Reconcile(context.Background(), reconcile.Request{NamespacedName: types.NamespacedName{Name: nodeName}})
 }
 
@@ -164,16 +170,20 @@ func (w *World) settle() {
 		if p == nil || p.exists {
 			continue
 		}
-		if r.ip.PodUID != "" && !w.delProcessed[r.ip.PodUID] {
-			// DEL never delivered: the daemon's GC has to notice (5 min period + 30 s grace)
-			if time.Since(p.goneAt) < 12*time.Minute {
+		if r.ip.PodUID != "" && (!w.delComplete[r.ip.PodUID] || !w.addOK[r.ip.PodUID]) {
+			// DEL never delivered, or delivered to an agent that holds no record of the pod (taken
+			// over, database lost): the agent first copies the uid back from the record (every
+			// 5 min), then its collection (every 5 min) reports the teardown once that entry is
+			// 30 s old; the two writers of the runtime object can undo one another once more.
+			if time.Since(p.goneAt) < 21*time.Minute+time.Duration(w.rtSeen[r.ip.PodUID].lost)*5*time.Minute {
+				w.run.Probe("reclaim-liveness-not-judged-yet")
 				continue
 			}
 		}
 		if time.Since(p.goneAt) < 5*time.Minute {
 			continue
 		}
-		w.run.Violate("C03", "reclaim-liveness", "address-never-reclaimed", "%s is still bound to %s (uid %q) %s after the pod vanished (DEL processed: %v), %d s after faults stopped", ip, r.ip.PodID, r.ip.PodUID, time.Since(p.goneAt).Round(time.Second), w.delProcessed[r.ip.PodUID], w.sc.SettleS)
+		w.run.Violate("C03", "reclaim-liveness", "address-never-reclaimed", "%s is still bound to %s (uid %q) %s after the pod vanished (DEL processed: %v), %d s after faults stopped", ip, r.ip.PodID, r.ip.PodUID, time.Since(p.goneAt).Round(time.Second), w.delComplete[r.ip.PodUID], w.sc.SettleS)
 	}
 	// C08 O3: record and cloud agree again after the next full synchronisation. The 12 h period
 	// is made to elapse by moving the due time in the record, as the passage of time would.
